@@ -10,8 +10,9 @@
 use anda_db::{
     collection::{Collection, CollectionConfig},
     database::{AndaDB, DBConfig},
-    query::{Filter, Query, RangeQuery, Search},
-    schema::{Document, FieldEntry, FieldType, Fv, Schema},
+    index::HnswConfig,
+    query::{Filter, Query, RRFReranker, RangeQuery, Search},
+    schema::{Document, FieldEntry, FieldType, Fv, Schema, bf16},
     storage::StorageConfig,
 };
 use futures::FutureExt;
@@ -141,6 +142,8 @@ struct Vals {
     nums: Vec<i64>,
     lvl: Option<i64>,
     body: String,
+    title: String,
+    vec: [f32; 4],
 }
 
 impl Vals {
@@ -311,6 +314,35 @@ impl Gen {
         }
     }
 
+    /// a filter of a given top-level shape that most documents satisfy (so that a filtered search keeps most
+    /// of its candidates); every top-level shape occurs, at both levels
+    fn wide_flt(&mut self) -> Flt {
+        let m = self.max_id;
+        let small = self.rng.range(0, (m / 8).max(1));
+        let large = m - self.rng.range(0, (m / 8).max(1));
+        let wide_id = match self.rng.below(8) {
+            0 => Rq::Ge(small),
+            1 => Rq::Gt(small),
+            2 => Rq::Le(large),
+            3 => Rq::Lt(large),
+            4 => Rq::Between(small, large),
+            5 => Rq::Include((0..=m + 1).filter(|i| i % 7 != 3).collect()),
+            6 => Rq::Not(Box::new(Rq::Include(vec![small, large, small]))),
+            _ => Rq::Or(vec![Rq::Le(m / 2), Rq::Gt(m / 2 + 1)]),
+        };
+        let narrow = Flt::Field(1, Rq::Eq(self.val(1)));
+        let wide_age = Flt::Field(1, Rq::Ge(0));
+        match self.rng.below(10) {
+            0 | 1 | 2 => Flt::Field(0, wide_id),
+            3 | 4 => Flt::Not(Box::new(narrow)),
+            5 => Flt::Not(Box::new(Flt::Field(0, Rq::Include(vec![small, large])))),
+            6 => wide_age,
+            7 => Flt::And(vec![Flt::Field(0, wide_id), Flt::Not(Box::new(narrow))]),
+            8 => Flt::Or(vec![narrow, Flt::Field(0, wide_id)]),
+            _ => Flt::Not(Box::new(Flt::Not(Box::new(Flt::Field(3, Rq::Ge(0)))))),
+        }
+    }
+
     /// a filter that names an unknown index or carries keys of the wrong type, alone or inside a tree
     fn bad_flt(&mut self) -> Flt {
         let leaf = match self.rng.below(4) {
@@ -354,6 +386,26 @@ impl Gen {
         if body.is_empty() {
             body.push_str("omega");
         }
+        // second text field with its own vocabulary; "red" is frequent so that a text query can hit most documents
+        const COLOURS: [&str; 4] = ["red", "green", "blue", "black"];
+        let mut title = String::new();
+        if self.rng.chance(3, 4) {
+            title.push_str("red ");
+        }
+        for w in &COLOURS[1..] {
+            for _ in 0..self.rng.below(2) {
+                title.push_str(w);
+                title.push(' ');
+            }
+        }
+        if title.is_empty() {
+            title.push_str("white");
+        }
+        // components are multiples of 1/8 in [-2, 2]: exact in bf16
+        let mut vec = [0f32; 4];
+        for x in vec.iter_mut() {
+            *x = self.rng.range(-16, 16) as f32 / 8.0;
+        }
         let nn = self.rng.below(4) as usize;
         Vals {
             age: if self.rng.chance(1, 6) { None } else { Some(self.val(1)) },
@@ -361,6 +413,8 @@ impl Gen {
             nums: (0..nn).map(|_| self.val(3)).collect(),
             lvl: if self.rng.chance(1, 6) { None } else { Some(self.val(4)) },
             body,
+            title,
+            vec,
         }
     }
 }
@@ -373,6 +427,8 @@ fn schema() -> Schema {
     b.add_field(FieldEntry::new("nums".into(), FieldType::Array(vec![FieldType::U64])).unwrap()).unwrap();
     b.add_field(FieldEntry::new("lvl".into(), FieldType::Option(Box::new(FieldType::I64))).unwrap()).unwrap();
     b.add_field(FieldEntry::new("body".into(), FieldType::Text).unwrap()).unwrap();
+    b.add_field(FieldEntry::new("title".into(), FieldType::Text).unwrap()).unwrap();
+    b.add_field(FieldEntry::new("vec".into(), FieldType::Vector).unwrap()).unwrap();
     b.build().unwrap()
 }
 
@@ -383,6 +439,8 @@ fn field_map(v: &Vals) -> BTreeMap<String, Fv> {
     m.insert("nums".to_string(), Fv::Array(v.nums.iter().map(|a| Fv::U64(*a as u64)).collect()));
     m.insert("lvl".to_string(), v.lvl.map(Fv::I64).unwrap_or(Fv::Null));
     m.insert("body".to_string(), Fv::Text(v.body.clone()));
+    m.insert("title".to_string(), Fv::Text(v.title.clone()));
+    m.insert("vec".to_string(), Fv::Vector(v.vec.iter().map(|x| bf16::from_f32(*x)).collect()));
     m
 }
 
@@ -414,6 +472,8 @@ async fn new_collection(name: &str) -> (AndaDB, Arc<Collection>) {
                 c.create_btree_index_nx(&["nums"]).await?;
                 c.create_btree_index_nx(&["lvl"]).await?;
                 c.create_bm25_index_nx(&["body"]).await?;
+                c.create_bm25_index_nx(&["title"]).await?;
+                c.create_hnsw_index_nx("vec", HnswConfig { dimension: 4, ..Default::default() }).await?;
                 Ok(())
             },
         )
@@ -473,7 +533,7 @@ async fn build_witness() -> Built {
     let (db, coll) = new_collection("witness").await;
     let mut docs = BTreeMap::new();
     for age in [50, 10, 20, 40, 30] {
-        let v = Vals { age: Some(age), name: None, nums: vec![], lvl: None, body: "alpha".into() };
+        let v = Vals { age: Some(age), name: None, nums: vec![], lvl: None, body: "alpha".into(), title: "red".into(), vec: [age as f32 / 8.0, 0.0, 0.0, 0.0] };
         let id = add(&coll, &v).await;
         docs.insert(id, v);
     }
@@ -540,8 +600,36 @@ enum Entry {
     First(Option<usize>),
     Last(Option<usize>),
     All,
-    /// search_ids: optional full-text search (text, candidates as the BM25 index returns them), limit
-    Search(Option<(String, Vec<u64>)>, Option<usize>),
+    /// search_ids: optional search clause (text and/or vector, with the candidate list the search stage
+    /// produces for this limit), limit
+    Search(Option<(Spec, Vec<u64>)>, Option<usize>),
+}
+
+/// the search clause: text goes to every BM25 index, the vector to every HNSW index of its dimension
+#[derive(Clone, Debug)]
+struct Spec {
+    text: Option<String>,
+    vector: Option<Vec<f32>>,
+}
+
+/// The candidate list of `search_ids` for this clause and limit, rebuilt from the public pieces the
+/// search stage is made of: each index's own top_k answer (BM25 indexes in registration order, then
+/// HNSW), fused by the default RRF reranker.  Judged against the unfiltered search in `main`.
+fn candidates(coll: &Collection, spec: &Spec, l: Option<usize>) -> Vec<u64> {
+    let k = top_k(l);
+    let mut lists: Vec<Vec<u64>> = vec![];
+    if let Some(text) = &spec.text {
+        for f in ["body", "title"] {
+            let ix = coll.get_bm25_index(&[f]).expect("bm25");
+            lists.push(ix.search(text, k, None).into_iter().map(|r| r.0).collect());
+        }
+    }
+    if let Some(v) = &spec.vector {
+        let ix = coll.get_hnsw_index("vec").expect("hnsw");
+        lists.push(ix.search(v, k).into_iter().map(|r| r.0).collect());
+    }
+    let mut seen = BTreeSet::new();
+    RRFReranker::default().rerank(&lists).into_iter().map(|r| r.0).filter(|id| seen.insert(*id)).collect()
 }
 
 fn lim_term(l: &Option<usize>) -> Value {
@@ -607,7 +695,7 @@ async fn run_impl(coll: &Collection, f: &Flt, e: &Entry) -> Result<Vec<u64>, Str
             Entry::All => coll.query_all_ids(filter).await,
             Entry::Search(s, l) => {
                 coll.search_ids(Query {
-                    search: s.as_ref().map(|(text, _)| Search { text: Some(text.clone()), ..Default::default() }),
+                    search: s.as_ref().map(|(sp, _)| Search { text: sp.text.clone(), vector: sp.vector.clone(), ..Default::default() }),
                     filter: Some(filter),
                     limit: *l,
                 })
@@ -663,14 +751,34 @@ fn entries_for(g: &mut Gen, b: &Built, n_match: usize, big: bool) -> Vec<Entry> 
     for l in [None, Some(0), Some(1), Some(2), Some(g.rng.range(1, n as i64 + 1) as usize)] {
         es.push(Entry::Search(None, l));
     }
-    let bm25 = b.coll.get_bm25_index(&["body"]).expect("bm25");
-    let text = *g.rng.pick(&["alpha", "beta", "gamma delta", "alpha beta gamma delta omega", "nosuchword"]);
-    for l in [None, Some(1), Some(g.rng.range(1, n as i64 + 1) as usize)] {
-        if l == Some(0) {
+    // searches: text over both BM25 indexes, vector, and hybrid; small limits make top_k (= 10 * limit) smaller
+    // than the merged candidate list as soon as the per-index answers differ
+    let text = *g.rng.pick(&["alpha", "beta", "gamma delta", "alpha red", "red", "alpha beta gamma delta omega red green", "nosuchword"]);
+    let qv: Vec<f32> = (0..4).map(|_| g.rng.range(-16, 16) as f32 / 8.0).collect();
+    let specs = [
+        Spec { text: Some(text.to_string()), vector: None },
+        Spec { text: Some(text.to_string()), vector: Some(qv.clone()) },
+        Spec { text: None, vector: Some(qv) },
+    ];
+    let spec_n = g.rng.below(3) as usize;
+    for (si, sp) in specs.iter().enumerate().take(3) {
+        if n < 50 && si != spec_n && si != 1 {
             continue;
         }
-        let cands: Vec<u64> = bm25.search(text, top_k(l), None).into_iter().map(|r| r.0).collect();
-        es.push(Entry::Search(Some((text.to_string(), cands)), l));
+        let mut ls: Vec<Option<usize>> = vec![Some(1), Some(g.rng.range(1, 3) as usize)];
+        if si == 1 || n < 50 {
+            ls.push(None);
+            ls.push(Some(g.rng.range(1, n as i64 + 1) as usize));
+        }
+        if n >= 50 {
+            ls.push(Some(3));
+        }
+        ls.sort();
+        ls.dedup();
+        for l in ls {
+            let cands = candidates(&b.coll, sp, l);
+            es.push(Entry::Search(Some((sp.clone(), cands)), l));
+        }
     }
     es
 }
@@ -723,6 +831,10 @@ struct Stats {
     entry_kinds: BTreeMap<String, usize>,
     limit_kinds: BTreeMap<String, usize>,
     outcomes: BTreeMap<String, usize>,
+    searches: usize,
+    searches_longer_than_top_k: usize,
+    max_candidates_over_top_k: usize,
+    candidate_problems: Vec<String>,
 }
 
 fn count_leaves(f: &Flt, h: &mut BTreeMap<String, usize>) {
@@ -759,12 +871,38 @@ async fn run_group(st: &mut Stats, built: &Built, ci: usize, f: &Flt, entries: &
         let want = expected(&full, &built.docs, f, e);
         let got = run_impl(&built.coll, f, e).await;
         st.evaluations += 1;
+        if let Entry::Search(Some((sp, cands)), l) = e {
+            st.searches += 1;
+            let k = top_k(*l);
+            if cands.len() > k {
+                st.searches_longer_than_top_k += 1;
+                st.max_candidates_over_top_k = st.max_candidates_over_top_k.max(cands.len() - k);
+            }
+            // the rebuilt candidate list is what the search stage produces: the unfiltered search is its head
+            let lim = l.unwrap_or(10).min(MAX);
+            let plain = built.coll.search_ids(Query {
+                search: Some(Search { text: sp.text.clone(), vector: sp.vector.clone(), ..Default::default() }),
+                filter: None,
+                limit: *l,
+            }).await;
+            let head: Vec<u64> = cands.iter().take(lim).copied().collect();
+            if plain.as_ref().ok() != Some(&head) && st.candidate_problems.len() < 5 {
+                st.candidate_problems.push(format!("unfiltered search {sp:?} limit {l:?} gave {plain:?}, rebuilt candidates start {head:?}"));
+            }
+        }
         let (ek, l) = match e {
             Entry::First(l) => ("query_ids", Some(*l)),
             Entry::Last(l) => ("query_last_ids", Some(*l)),
             Entry::All => ("query_all_ids", None),
             Entry::Search(None, l) => ("search_ids(filter only)", Some(*l)),
-            Entry::Search(Some(_), l) => ("search_ids(text + filter)", Some(*l)),
+            Entry::Search(Some((sp, _)), l) => (
+                match (&sp.text, &sp.vector) {
+                    (Some(_), Some(_)) => "search_ids(text + vector + filter)",
+                    (Some(_), None) => "search_ids(text + filter)",
+                    _ => "search_ids(vector + filter)",
+                },
+                Some(*l),
+            ),
         };
         *st.entry_kinds.entry(ek.to_string()).or_default() += 1;
         if let Some(l) = l {
@@ -856,6 +994,7 @@ async fn main() {
     let n_filters: usize = arg_value(&args, "--filters").and_then(|s| s.parse().ok()).unwrap_or(24);
     let depth: usize = arg_value(&args, "--depth").and_then(|s| s.parse().ok()).unwrap_or(4);
     let big: usize = arg_value(&args, "--big").and_then(|s| s.parse().ok()).unwrap_or(0);
+    let hybrid: usize = arg_value(&args, "--hybrid").and_then(|s| s.parse().ok()).unwrap_or(0);
     let mut out = std::io::BufWriter::new(std::fs::File::create(&out_path).expect("out"));
     let mut rng = Rng::from_env();
 
@@ -868,8 +1007,9 @@ async fn main() {
     let (mut n_bad_filters, mut n_budget_filters, mut n_reshaped) = (0usize, 0usize, 0usize);
     let mut state_changes_after_rejected = 0usize;
 
-    for ci in 0..(n_colls + 1 + big) {
-        let is_big = ci > n_colls;
+    for ci in 0..(n_colls + 1 + big + hybrid) {
+        let is_hybrid = ci > n_colls + big;
+        let is_big = ci > n_colls && !is_hybrid;
         let mut g = Gen { rng: rng.fork(), kmax: 8, max_id: 0 };
         let built = if ci == 0 {
             build_witness().await
@@ -877,6 +1017,11 @@ async fn main() {
             g.kmax = 40;
             let n = MAX + 60 + g.rng.below(60) as usize;
             build_random(&mut g, &format!("big{ci}"), n).await
+        } else if is_hybrid {
+            // 60..300 documents: far more than top_k = 10..30 of the small-limit searches below
+            let n = 60 + g.rng.below(241) as usize;
+            g.kmax = 6 + g.rng.below(8) as i64;
+            build_random(&mut g, &format!("h{ci}"), n).await
         } else {
             let n = 1 + g.rng.below(max_docs as u64) as usize;
             g.kmax = 3 + g.rng.below(8) as i64;
@@ -913,9 +1058,10 @@ async fn main() {
             }
         } else {
             let nf = if is_big { n_filters / 2 } else { n_filters };
-            for _ in 0..nf {
+            for fi in 0..nf {
                 let d = g.rng.below(depth as u64 + 1) as usize;
-                let f = g.flt(d);
+                // hybrid collections: mostly filters that keep most documents, of every top-level shape
+                let f = if is_hybrid && fi * 4 < nf * 3 { g.wide_flt() } else { g.flt(d) };
                 // logically equal re-shapings of the same filter must give the same pages
                 match g.rng.below(12) {
                     0 => { n_reshaped += 1; filters.push((Flt::And(vec![f.clone()]), None, "")) }
@@ -980,7 +1126,7 @@ async fn main() {
 
     let summary = json!({
         "kind": "summary",
-        "collections": n_colls + 1 + big,
+        "collections": n_colls + 1 + big + hybrid,
         "evaluations": st.evaluations,
         "cutting_evaluations": st.cutting,
         "oracle_failures": st.oracle_failures,
@@ -993,6 +1139,9 @@ async fn main() {
         "node_kinds": leaf_kinds,
         "documents": {"total": docs_total, "with_a_missing_indexed_value": docs_missing, "with_array_of_2_or_more_keys": docs_array_multi,
                       "with_empty_array": docs_array_empty, "sharing_an_age_key_with_an_earlier_document": docs_dup_key},
+        "searches": {"with_a_search_clause": st.searches, "candidate_list_longer_than_top_k": st.searches_longer_than_top_k,
+                     "max_candidates_beyond_top_k": st.max_candidates_over_top_k, "hybrid_collections": hybrid},
+        "candidate_problems": st.candidate_problems,
         "streams": {"error_stream_filters": n_bad_filters, "budget_stream_filters": n_budget_filters, "reshaped_filters": n_reshaped},
         "collections_whose_state_changed_during_queries": state_changes_after_rejected,
         "collection_sizes": sizes,
@@ -1011,6 +1160,6 @@ fn entry_name(e: &Entry) -> String {
         Entry::Last(l) => format!("query_last_ids(limit {l:?})"),
         Entry::All => "query_all_ids".to_string(),
         Entry::Search(None, l) => format!("search_ids(filter only, limit {l:?})"),
-        Entry::Search(Some((t, c)), l) => format!("search_ids(text {t:?} -> candidates {:?}, limit {l:?})", &c[..c.len().min(24)]),
+        Entry::Search(Some((sp, c)), l) => format!("search_ids(text {:?}, vector {:?} -> {} candidates {:?}, limit {l:?})", sp.text, sp.vector, c.len(), &c[..c.len().min(40)]),
     }
 }
